@@ -18,6 +18,13 @@ objects, objects with a history, every argument type) and each result is certifi
 fractions, ideal mixing with the DESORPTION loadings (Model/IastPoint.lean `pointCertBranch` = selection by branch mark + `orient` + `pointCert`, op
 `pcertb` of Drv/Iast.lean; theorems Props/C13/Branch.lean, Props/C11/Branch.lean).  Model isotherms built / fitted on the desorption branch answer on
 that branch and refuse any other with ParameterError.
+ARGUMENT OBJECTS, ORDER, TRACE COMPOSITIONS: every IAST call of this harness goes through a proxy that compares the caller's array / list arguments after the
+call with a copy taken before (content, dtype, shape, element identity), on returns and on refusals; iast_binary_svp is called with pressures in decreasing /
+shuffled order and with repeats (list, tuple, array; default and user guess; model, Henry and point isotherms, both branches): every row equals the point
+calculation at ITS pressure, `pressure` comes back in the order passed, a repeated pressure gives the same row; reverse_iast is asked for TRACE adsorbed
+fractions (1e-6 .. 5e-4, exact dyadic numbers; float arrays, lists, tuples; default and user guess): requested fractions of the loadings, equal spreading
+pressures and ideal mixing at P y_i / x_i of the REQUESTED x, Henry / equal-capacity Langmuir closed forms y_i ~ x_i / K_i, forward(reverse), and the same
+answer from a second call with the same argument objects.
 ROOT OR STALL (finding S50-C13a, repaired in the repository): `root(method='lm')` reports success on every termination; every return of
 iast_point (uniform / vertex / random / boundary user guesses) and of reverse_iast (default and far gas-fraction guesses) is certified, and a
 relative spread of the spreading pressures above 1e-3 is the separate clause "a non-solution is returned", which no known finding matches
@@ -43,6 +50,61 @@ def run(ck):
     quiet_logging()
     np.seterr(all="ignore")
     rng = ck.rng
+
+    # EVERY IAST call of this harness goes through this proxy: the caller's sequence arguments (arrays: content, dtype, shape; lists: the same objects /
+    # numbers) are after the call what they were before it, whether it returns or refuses (an in-place edit of an argument - directly or through an
+    # alias such as a defaulted guess - changes what the NEXT calculation with the same variable is asked).
+    _pgi_real = pgi
+
+    def _describe_iso(iso):
+        m_ = getattr(iso, "model", None)
+        if m_ is not None and hasattr(m_, "params"):
+            return {"model": m_.name, "params": {k_: float(v_) for k_, v_ in m_.params.items()}}
+        return {"point_isotherm_rows": int(len(iso.data_raw))}
+
+    def _snap(v):
+        if isinstance(v, np.ndarray):
+            return ("array", v.dtype, v.shape, v.copy())
+        if isinstance(v, list):
+            return ("list", list(v))
+        return None
+
+    def _is_num(a):
+        return isinstance(a, (int, float, np.number))
+
+    def _same_arg(v, sn):
+        if sn[0] == "array":
+            return v.dtype == sn[1] and v.shape == sn[2] and bool(np.array_equal(v, sn[3], equal_nan=True))
+        return len(v) == len(sn[1]) and all((a is b) or (_is_num(a) and _is_num(b) and a == b) for a, b in zip(v, sn[1]))
+
+    def _show(v):
+        if isinstance(v, np.ndarray):
+            return {"ndarray": v.tolist(), "dtype": str(v.dtype)}
+        if isinstance(v, (list, tuple)) and all(_is_num(a) for a in v):
+            return [float(a) for a in v]
+        if isinstance(v, (list, tuple)):
+            return [_describe_iso(a) if hasattr(a, "adsorbate") else repr(a)[:60] for a in v]
+        return v if isinstance(v, (int, float, str, bool, type(None))) else repr(v)[:80]
+
+    class _Guarded:
+        def __getattr__(self, name):
+            fn = getattr(_pgi_real, name)
+            if not (callable(fn) and (name.startswith("iast_") or name == "reverse_iast")):
+                return fn
+
+            def call(*a, **k):
+                named = [(f"positional {j}", v) for j, v in enumerate(a)] + list(k.items())
+                snaps = [(lab, v, _snap(v)) for lab, v in named]
+                try:
+                    return fn(*a, **k)
+                finally:
+                    for lab, v, sn in snaps:
+                        if sn is not None and not _same_arg(v, sn):
+                            ck.fail_case({"kind": "caller-arguments", "clause": "an IAST call changed an argument object of the caller", "entry": name, "argument": lab},
+                                         {"call": name, "arguments_before": {l_: _show(v_ if s_ is None else s_[1] if s_[0] == "list" else s_[3]) for l_, v_, s_ in snaps},
+                                          "argument_after": _show(v)})
+            return call
+    pgi = _Guarded()
     thorough = ck.tier == "thorough"
     N = ck.n(45, 240)
     worst = {}
@@ -126,6 +188,9 @@ def run(ck):
     # and only with a trace component) is a NON-SOLUTION handed out as a result - never matched by the known findings S22 / S22b, whatever the
     # mole fractions are; between the certificate's 1e-6 and NON_SOLUTION the older clause applies (known finding S22 when a trace component is involved).
     NON_SOLUTION = 1e-3
+    # reverse_iast with a requested TRACE fraction (1e-6 .. 5e-4): measured on the unchanged tree (seeds 1-3, 7 boosted) - closed forms below 2e-8, forward(reverse) below 2e-6
+    # (the root finding is in the gas fractions, which are not small relative to the requested ones); a defect of the class (the trace fraction replaced / clamped) is a factor >= 2.
+    TRACE_CF_TOL, TRACE_INV_TOL = 1e-5, 1e-3
     NON_SOLUTION_CLAUSE = "a non-solution is returned: spreading pressures at the fictitious pressures differ by more than 0.1 %"
 
     def certificate(isos, pp, loads, sig, detail, independent=True, coarse=None):
@@ -960,6 +1025,160 @@ def run(ck):
                         ck.fail_case({**sig, "clause": "iast_binary_vle differs from the point calculation", "argument": pn.split(" ")[0]},
                                      {**detail, "total_pressure": iastlib.describe(pv), "got": [o, r if o != "ok" else [float(v_) for v_ in r["x"]]], "expected": [0.0] + [float(v_) for v_ in xsw] + [1.0]})
 
+    # -------------------------------------------------------------------- argument SEQUENCES in any order: each row of the helper = the point calculation at ITS pressure
+    # (pressures decreasing, shuffled, with repeats - a repeat after a larger value -, as list / tuple / float array; default and user guess; point and model isotherms whose
+    #  selectivity depends on pressure; `pressure` is returned as passed, row by row)
+    for i in range(ck.n(14, 80)):
+        kind = rng.choice(["model", "model", "model", "point", "henry"])
+        datas, B, brt = None, {}, "ads"
+        if kind == "point":
+            hy = rng.random() < 0.4
+            datas = [iastlib.point_data(rng, np, hysteresis=hy) for _ in range(2)]
+            if hy and rng.random() < 0.5:
+                B, brt = {"branch": "des"}, "des"
+            names, plist = [d["shape"] for d in datas], [d["params"] for d in datas]
+            isos = [iastlib.build_point(pg, np, d, a) for d, a in zip(datas, ADS)]
+        else:
+            names = ["Henry"] * 2 if kind == "henry" else [rng.choice(IAST_OK) for _ in range(2)]
+            plist = [pars(n) for n in names]
+            isos = [model_iso(n, p_, a) for n, p_, a in zip(names, plist, ADS)]
+        k = rng.randint(1, 15)
+        mf = [k / 16, 1 - k / 16]
+        base = sorted({float(f"{logu(rng, 0.05, 20):.4g}") for _ in range(rng.randint(2, 5))})
+        order = rng.choice(["decreasing", "shuffled", "repeats", "repeats"])
+        if order == "decreasing":
+            prs = base[::-1]
+        elif order == "shuffled":
+            prs = list(base)
+            while len(prs) > 1 and prs == sorted(prs):
+                rng.shuffle(prs)
+        else:
+            prs = list(base[::-1]) + [rng.choice(base) for _ in range(rng.randint(1, 2))] + [base[-1]]
+            prs.insert(rng.randrange(len(prs)), base[0])
+        guess = None
+        if rng.random() < 0.3:
+            g_ = rng.randint(2, 14) / 16
+            guess = [g_, 1 - g_]
+        G = {} if guess is None else {"adsorbed_mole_fraction_guess": guess}
+        sig = {"kind": "argument-order:" + kind, "components": 2, "branch": brt, "order": order}
+        detail = {"models": names, "params": plist, "mole_fractions": mf, "pressures": prs, "branch": brt, "adsorbed_mole_fraction_guess": guess}
+        if datas is not None:
+            detail["data"] = data_detail(datas)
+        ck.count(("order", kind, order, tuple(prs), i), bucket=f"iast_binary_svp: pressures {order} ({kind})", sample={"models": names, "pressures": prs} if i % 20 == 0 else None)
+        refs = [outcome(lambda: np.asarray(pgi.iast_point(isos, np.array(mf) * float(p_), warningoff=True, **B, **G), dtype=float)) for p_ in prs]
+        cont = rng.choice(["list", "tuple", "array"])
+        pv = list(prs) if cont == "list" else tuple(prs) if cont == "tuple" else np.array(prs, dtype=float)
+        o, r = outcome(lambda: pgi.iast_binary_svp(isos, list(mf) if i % 2 else np.array(mf), pv, warningoff=True, **B, **G))
+        if not all(o_ == "ok" for o_, _ in refs):
+            if o == "ok":
+                ck.fail_case({**sig, "clause": "iast_binary_svp answers where the point calculation refuses"}, {**detail, "point_calculations": [o_ if o_ != "ok" else "ok" for o_, _ in refs]})
+            else:
+                ck.count(("order-refused", i), nontrivial=False, bucket="iast_binary_svp (any order): refused like the point calculation")
+            continue
+        want = [float((r_[0] / mf[0]) / (r_[1] / mf[1])) for _, r_ in refs]
+        if o != "ok":
+            ck.fail_case({**sig, "clause": "iast_binary_svp differs from the point calculation", "container": cont}, {**detail, "got": [o, r], "expected": want})
+            continue
+        got = [float(v_) for v_ in r["selectivity"]]
+        gp = np.asarray(r["pressure"], dtype=float)
+        if len(got) != len(prs) or not np.allclose(got, want, rtol=1e-9, atol=0):
+            ck.fail_case({**sig, "clause": "iast_binary_svp differs from the point calculation", "container": cont}, {**detail, "container": cont, "got": got, "expected_row_by_row": want})
+        elif gp.shape != (len(prs),) or not np.array_equal(gp, np.asarray(prs, dtype=float)):
+            ck.fail_case({**sig, "clause": "iast_binary_svp does not report the pressures in the order they were passed", "container": cont}, {**detail, "container": cont, "got": gp.tolist()})
+        # the same value asked twice gives the same row
+        for a_ in range(len(prs)):
+            for b_ in range(a_ + 1, len(prs)):
+                if prs[a_] == prs[b_] and len(got) == len(prs) and got[a_] != got[b_]:
+                    ck.fail_case({**sig, "clause": "iast_binary_svp: one pressure passed twice gives two different rows"}, {**detail, "rows": [a_, b_], "got": got})
+
+    # -------------------------------------------------------------------- reverse problem with a TRACE component (requested adsorbed fraction 1e-6 .. 5e-4), arguments as float
+    # arrays / lists / tuples, default and user guess: loadings have the requested fractions, closed forms (Henry, equal-capacity Langmuir: y_i ~ x_i / K_i), the forward
+    # calculation at the returned gas fractions gives the requested composition back, a second call with the SAME variable gives the same answer.
+    def trace_fractions(nc):
+        t = rng.randint(1, 1023) / 2 ** rng.randint(20, 21)         # exact dyadic numbers: the sum is 1.0 exactly (the library refuses anything else)
+        if nc == 2:
+            xs_ = [t, 1 - t]
+        else:
+            d_ = rng.randint(2, 12) / 16
+            xs_ = [t, d_, 1 - t - d_]
+        rng.shuffle(xs_)
+        return xs_
+
+    for i in range(ck.n(24, 120)):
+        nc = rng.choice([2, 2, 3])
+        kind = rng.choice(["henry", "langmuir-eq", "model", "model"])
+        names = ["Henry"] * nc if kind == "henry" else ["Langmuir"] * nc if kind == "langmuir-eq" else [rng.choice(["Henry", "Langmuir", "DSLangmuir", "TSLangmuir", "Quadratic", "Toth", "JensenSeaton"]) for _ in range(nc)]
+        plist = [pars(n) for n in names]
+        if kind == "langmuir-eq":
+            nm = rng.uniform(1, 8)
+            for p_ in plist:
+                p_["n_m"] = nm
+        isos = [model_iso(n, p_, a) for n, p_, a in zip(names, plist, ADS)]
+        xs = trace_fractions(nc)
+        assert float(np.sum(np.array(xs))) == 1.0
+        ptot = float(f"{logu(rng, 0.1, 20):.4g}")
+        gk = rng.choice(["default", "default", "default", "user"])
+        cont = rng.choice(["array", "array", "list", "tuple"])
+        xv = np.array(xs, dtype=float) if cont == "array" else list(xs) if cont == "list" else tuple(xs)
+        gv = None
+        if gk == "user":
+            gg = dyadic_fractions(nc)
+            gv = rng.choice([list(gg), np.array(gg, dtype=float)])
+        sig = {"kind": "reverse-trace:" + kind, "components": nc, "guess": gk, "container": cont}
+        detail = {"models": names, "params": plist, "adsorbed_fractions_wanted": xs, "total_pressure": ptot, "container": cont, "gas_mole_fraction_guess": None if gv is None else iastlib.describe(gv)}
+        ck.count(("rtrace", kind, nc, tuple(xs), i), bucket=f"reverse_iast with a trace component ({kind}, {gk} guess, {cont})", sample={"models": names, "x": xs} if i % 30 == 0 else None)
+        o, r = outcome(lambda: pgi.reverse_iast(isos, xv, ptot, warningoff=True, gas_mole_fraction_guess=gv))
+        if o == "error":
+            ck.fail_case({**sig, "clause": "reverse_iast raises a non-pyGAPS error", "error": r.split(":")[0]}, {**detail, "error": r})
+            continue
+        # the same variable again: the same outcome (whatever the first call did with it)
+        o_b, r_b = outcome(lambda: pgi.reverse_iast(isos, xv, ptot, warningoff=True, gas_mole_fraction_guess=gv))
+        if o_b != o or (o == "ok" and not (np.array_equal(np.asarray(r[0]), np.asarray(r_b[0])) and np.array_equal(np.asarray(r[1]), np.asarray(r_b[1])))):
+            ck.fail_case({**sig, "clause": "reverse_iast: a second call with the same argument objects gives another answer"},
+                         {**detail, "first": [o, r if o != "ok" else [np.asarray(r[0]).tolist(), np.asarray(r[1]).tolist()]], "second": [o_b, r_b if o_b != "ok" else [np.asarray(r_b[0]).tolist(), np.asarray(r_b[1]).tolist()]]})
+        if o != "ok":
+            ck.count(("rtrace-refused", i), nontrivial=False, bucket=f"reverse_iast with a trace component: refused ({r})")
+            continue
+        y2, l2 = np.asarray(r[0], dtype=float), np.asarray(r[1], dtype=float)
+        xa = np.array(xs, dtype=float)
+        d2 = {**detail, "gas_fractions_returned": y2.tolist(), "loadings_returned": l2.tolist()}
+        e = float(np.max(np.abs(l2 / np.sum(l2) - xa) / xa))
+        note("reverse (trace): fractions of the loadings vs requested", e)
+        if not (e <= 1e-9):
+            ck.fail_case({**sig, "clause": "reverse_iast loadings do not have the requested adsorbed fractions"}, {**d2, "got": (l2 / np.sum(l2)).tolist()})
+        if abs(float(np.sum(y2)) - 1) > 1e-12 or np.min(y2) < 0:
+            ck.fail_case({**sig, "clause": "reverse_iast gas fractions are not fractions summing to one"}, d2)
+        # equal spreading pressures at the fictitious pressures P y_i / x_i of the REQUESTED fractions (the library's own acceptance: 1e-4 relative, Props/C13/Accept.lean)
+        sp = np.array([float(iso.spreading_pressure_at(ptot * float(y_) / float(x_))) for iso, y_, x_ in zip(isos, y2, xa)])
+        spread = float((np.max(sp) - np.min(sp)) / np.max(np.abs(sp)))
+        note("reverse (trace): relative spread of the spreading pressures", spread)
+        if not (spread <= NON_SOLUTION):
+            ck.fail_case({**sig, "clause": NON_SOLUTION_CLAUSE, "entry": "reverse_iast"}, {**d2, "spreading_pressures": sp.tolist()})
+        # ideal mixing with the requested fractions
+        n0 = np.array([float(iso.loading_at(ptot * float(y_) / float(x_))) for iso, y_, x_ in zip(isos, y2, xa)])
+        tot_want = 1.0 / float(np.sum(xa / n0))
+        if relerr(float(np.sum(l2)), tot_want) > 1e-9:
+            ck.fail_case({**sig, "clause": "reverse_iast total loading does not obey the ideal-mixing rule for the requested fractions"}, {**d2, "total": float(np.sum(l2)), "expected": tot_want})
+        if kind in ("henry", "langmuir-eq"):
+            ks = np.array([p_["K"] for p_ in plist])
+            ycf = (xa / ks) / float(np.sum(xa / ks))
+            lcf = ks * ycf * ptot if kind == "henry" else plist[0]["n_m"] * ks * ycf * ptot / (1 + float(np.sum(ks * ycf * ptot)))
+            e1, e2 = float(np.max(np.abs(y2 - ycf) / ycf)), float(np.max(np.abs(l2 - lcf) / lcf))
+            note("reverse (trace) vs closed form: gas fractions", e1)
+            note("reverse (trace) vs closed form: loadings", e2)
+            if not (e1 <= TRACE_CF_TOL and e2 <= TRACE_CF_TOL):
+                ck.fail_case({**sig, "clause": "reverse_iast differs from the closed form (y_i ~ x_i / K_i) at a trace composition"}, {**d2, "expected_gas_fractions": ycf.tolist(), "expected_loadings": lcf.tolist()})
+        # forward(reverse): started AT the requested composition (a solution stays where it is), the forward calculation gives the requested fractions back
+        o_f, l_f = outcome(lambda: np.asarray(pgi.iast_point(isos, y2 * ptot, warningoff=True, adsorbed_mole_fraction_guess=np.array(xs, dtype=float)), dtype=float))
+        if o_f == "ok":
+            xf = l_f / np.sum(l_f)
+            e3 = float(np.max(np.abs(xf - xa) / xa))
+            note("forward(reverse) at a trace composition", e3)
+            if not (e3 <= TRACE_INV_TOL):
+                ck.fail_case({**sig, "clause": "reverse IAST does not invert the forward calculation", "trace_requested": True}, {**d2, "forward_fractions": xf.tolist()})
+        else:
+            ck.count(("rtrace-fwd-refused", i), nontrivial=False, bucket="forward(reverse) at a trace composition: forward refused")
+
     # -------------------------------------------------------------------- extrapolation warning: told iff a fictitious pressure exceeds the model's pressure range, never changes the result
     for i in range(ck.n(8, 40)):
         nc = rng.choice([2, 3])
@@ -1124,5 +1343,5 @@ def run(ck):
                       "coarse (8-40 point, regular / irregular / with origin / hysteretic) point isotherms and model isotherms (built on either branch) as OBJECTS WITH A QUERY HISTORY, called on either branch, (1-4 earlier loading_at / pressure_at / "
                       "spreading_pressure_at / accessor calls with 8 interpolation kinds, both branches, 4 fill values, other units; an earlier IAST run) against fresh objects and against the certificate "
                       "computed from the raw data (Lean pointCert at Q on the first cases); every entry point with integer-valued and quarter-valued numbers in 14 container / dtype variants "
-                      "(ints, int arrays, lists, tuples, float32, 0-d arrays, mixed) against float64; verbose report; extrapolation warning; 19 documented refusals; partial pressures above the last / below the first measured point of a point isotherm (refused with the default guess, certified when a user guess returns)")
+                      "(ints, int arrays, lists, tuples, float32, 0-d arrays, mixed) against float64; verbose report; extrapolation warning; iast_binary_svp with pressures decreasing / shuffled / repeated row by row against the point calculation; reverse_iast with a requested trace fraction (1e-6 .. 5e-4) against closed forms, the equations at the requested fractions and forward(reverse), twice with the same argument objects; every IAST call leaves the caller's arrays / lists unchanged; 19 documented refusals; partial pressures above the last / below the first measured point of a point isotherm (refused with the default guess, certified when a user guess returns)")
     ck.assumptions += ["scipy.optimize.root(method='lm') is numerical: each returned result is certified against the IAST equations", "scipy.integrate.quad for the independent spreading pressure (1e-11)"]
